@@ -1756,3 +1756,108 @@ func successReturns(f *ssa.Function) []*ssa.Return {
 	}
 	return out
 }
+
+// BodyWith returns fn itself, or the looked-through callee of fn (two levels), whose body contains an
+// instruction satisfying pred: the function to analyse when the anchored function delegates its work to a
+// helper the rules have not seen. nil when nothing matches.
+func BodyWith(fn *ssa.Function, pred func(ssa.Instruction) bool) *ssa.Function {
+	has := func(f *ssa.Function) bool {
+		found := false
+		Instrs(f, func(in ssa.Instruction) {
+			if pred(in) {
+				found = true
+			}
+		})
+		return found
+	}
+	if has(fn) {
+		return fn
+	}
+	for _, h := range transparentCalleesOf(fn, 2) {
+		if has(h) {
+			return h
+		}
+	}
+	return nil
+}
+
+// AnonFuncsDeep lists the function literals of fn and of the callees of fn the analyses look through.
+func AnonFuncsDeep(fn *ssa.Function) []*ssa.Function {
+	out := append([]*ssa.Function{}, fn.AnonFuncs...)
+	for _, h := range transparentCalleesOf(fn, 2) {
+		if h.Parent() == nil {
+			out = append(out, h.AnonFuncs...)
+		}
+	}
+	return out
+}
+
+// BinOpFact is a comparison known to hold (or not) on a conditional edge.
+type BinOpFact struct {
+	Op    *ssa.BinOp
+	Holds bool
+}
+
+// BinOpFacts expands a conditional edge into the comparisons it establishes: the condition itself, through
+// negations, and through a looked-through helper that returns the comparison (`if m.isActive(id)` with
+// `func (m *Model) isActive(id string) bool { return m.active().Id == id }`).
+func BinOpFacts(e CondEdge) []BinOpFact {
+	var out []BinOpFact
+	var walk func(cond ssa.Value, holds bool, depth int)
+	walk = func(cond ssa.Value, holds bool, depth int) {
+		if depth > 3 {
+			return
+		}
+		switch x := cond.(type) {
+		case *ssa.UnOp:
+			if x.Op == token.NOT {
+				walk(x.X, !holds, depth+1)
+			}
+		case *ssa.BinOp:
+			out = append(out, BinOpFact{x, holds})
+		case *ssa.Call:
+			if f := TransparentCallee(x); f != nil && f.Signature.Results().Len() == 1 {
+				var live []PhiLeaf
+				allOther := true
+				for _, lf := range PhiLeaves(x) {
+					if b, isC := ConstBool(lf.Val); isC {
+						if b == holds {
+							allOther = false // the constant answer is possible too: nothing follows
+						}
+						continue
+					}
+					live = append(live, lf)
+				}
+				if len(live) == 1 && allOther {
+					walk(live[0].Val, holds, depth+1)
+				}
+			}
+		}
+	}
+	walk(e.If.Cond, e.Branch, 0)
+	return out
+}
+
+// SameValues: two values denote the same quantity: identical, or resolving (through locals, looked-through
+// helpers' parameters and results) to the same set of values.
+func SameValues(x, y ssa.Value) bool {
+	if x == y {
+		return true
+	}
+	xs, ys := map[ssa.Value]bool{}, map[ssa.Value]bool{}
+	for _, v := range ValuesAt(x) {
+		xs[stripConv(v)] = true
+	}
+	for _, v := range ValuesAt(y) {
+		ys[stripConv(v)] = true
+	}
+	if len(xs) == 0 || len(xs) != len(ys) {
+		return false
+	}
+	for v := range xs {
+		if !ys[v] {
+			return false
+		}
+	}
+	return true
+}
